@@ -223,6 +223,13 @@ V("c11-tau-definition", "fault", "C11", P + "convex_polyhedron.py", "return 4 * 
 V("c11-asphericity-volume", "fault", "C11", P + "convex_polyhedron.py", "return self.mean_curvature * self.surface_area / (3 * self.volume)", "return self.mean_curvature * self.surface_area / (2 * self.volume)", rule="ST-4")
 V("c11-signed-area-sign", "fault", "C11", P + "convex_spheropolygon.py", "            return poly_area - sphero_area\n", "            return poly_area + sphero_area\n", rule="ST-4")
 V("c11-cap-area", "fault", "C11", P + "convex_spheropolygon.py", "cap_area = np.pi * self.radius * self.radius", "cap_area = 2 * np.pi * self.radius * self.radius", rule="ST-1")
+V("c11-wedge-arcsin-core", "fault", "C11", P + "convex_polyhedron.py",
+  "            phi = self.get_dihedral(i, j)\n            edge_vector = self.vertices[edge[0]] - self.vertices[edge[1]]\n            edge_length = np.linalg.norm(edge_vector)\n            unnorm_r += edge_length * (np.pi - phi)",
+  "            n_i, n_j = self.normals[i], self.normals[j]\n            theta = np.arcsin(np.linalg.norm(np.cross(n_i, n_j)))\n            edge_vector = self.vertices[edge[0]] - self.vertices[edge[1]]\n            edge_length = np.linalg.norm(edge_vector)\n            unnorm_r += edge_length * theta", rule="ST-6")
+V("c11-wedge-arcsin-dihedral", "fault", "C11", P + "polyhedron.py",
+  "        return np.arccos(np.dot(-n1, n2))", "        return np.pi - np.arcsin(np.linalg.norm(np.cross(n1, n2)))", rule="ST-6")
+V("c11-rw-dihedral-temp", "rewrite", "C11", P + "polyhedron.py",
+  "        return np.arccos(np.dot(-n1, n2))", "        cos_phi = -np.dot(n1, n2)\n        phi = np.arccos(cos_phi)\n        return phi")
 V("c11-rw-loop-variable", "rewrite", "C11", P + "convex_polyhedron.py", "            unnorm_r += edge_length * (np.pi - phi)", "            unnorm_r += (np.pi - phi) * edge_length")
 
 # ------------------------------------------------------------------------------------------ C05 / C06
